@@ -27,7 +27,8 @@ MANIFEST = dict(
          'what the other encrypts, that packets are key-id | sha256(plaintext) | ciphertext with the key id the peer expects, that the signing helpers return exactly the 64-byte signature '
          'which verify_sign accepts only with the matching key, message and length, that key derivation from a mnemonic reaches no randomness or time source, and that mnemonic_new only '
          'returns what mnemonic_is_valid accepts.'
-         ' Key derivation gives, after any history of other derivations in the same process (other salts, other mnemonics), what it gives in a fresh process; ids are opaque symbols on every comparison path (nothing the channel keeps is computed from an id).',
+         ' Key derivation gives, after any history of other derivations in the same process (other salts, other mnemonics), what it gives in a fresh process; ids are opaque symbols on every comparison path (nothing the channel keeps is computed from an id).'
+         ' A bounded retry loop in mnemonic_new is walked for three draws and then as exhausted: what it returns after the last rejected draw must be valid too (raising is accepted).',
     note='trusted: interpreter, rope model, the algebraic models of nacl / x25519 / Cryptodome / hashlib (these libraries are not analysed).',
     design_ref='DESIGN.md section 4 C20')
 
